@@ -72,3 +72,47 @@ def chk_val(box, expected, exact=True, tol=1e-12):
         e = exact_equal(r, expected()) if exact else close(r, expected(), tol)
         return ("value differs: " + e) if e else None
     return oracle
+
+
+def sdiv_inexact_cases(rng, x, dt, tag, n=3):
+    """x / q for scalars q whose quotients are NOT exactly representable (3, 0.7, -1.9, 7) in every admissible form: python int/float, numpy
+    scalar, 0-d / 1-element torch tensor of the operand's, a narrower (float32) or an integer dtype.  No model line (the model's quotient is an exact
+    rational); the oracle is the strongest float statement available: the result is x with ONE core divided by the exact value of the scalar
+    handed over, each entry correctly rounded (what a single division gives; a product with a rounded reciprocal does not), the other cores
+    untouched, dtype and ranks preserved."""
+    import numpy as np
+    from common import Case
+    real = dt if dt != tn.complex128 else tn.float64
+    forms = [("int", lambda v: int(v) if float(v).is_integer() else float(v)), ("float", float), ("npfloat64", np.float64),
+             ("tensor0d", lambda v: tn.tensor(float(v), dtype=real)), ("tensor1el", lambda v: tn.tensor([float(v)], dtype=real)),
+             ("tensor0d-f32", lambda v: tn.tensor(float(v), dtype=tn.float32)), ("tensor1el-f32", lambda v: tn.tensor([float(v)], dtype=tn.float32)),
+             ("tensor0d-i64", lambda v: tn.tensor(int(v)) if float(v).is_integer() else tn.tensor(float(v), dtype=real))]
+    cases = []
+    for _ in range(n):
+        v = rng.choice([3, 7, 0.7, -1.9, 3.0, -6])
+        kname, mk = rng.choice(forms)
+        q = mk(v)
+        q64 = float(q.to(tn.float64).reshape(-1)[0]) if tn.is_tensor(q) else float(q)
+        box, impl = boxed(lambda x=x, q=q: x / q)
+
+        def oracle(box=box, x=x, q64=q64, dt=dt, kname=kname):
+            if "r" not in box:
+                return "x / scalar raised (%s)" % kname
+            r = box["r"]
+            if not isinstance(r, torchtt.TT) or list(r.N) != list(x.N) or list(r.R) != list(x.R):
+                return "x / scalar: shape or ranks changed"
+            if any(c.dtype != dt for c in r.cores):
+                return "x / scalar (%s): dtype not preserved: %s" % (kname, [str(c.dtype) for c in r.cores])
+            changed = [k for k in range(len(x.cores)) if not tn.equal(r.cores[k], x.cores[k])]
+            if len(changed) > 1:
+                return "x / scalar changed %d cores" % len(changed)
+            for k in changed:
+                want = x.cores[k] / q64
+                if not tn.equal(r.cores[k], want):
+                    err = float(((r.cores[k] - want).abs() / want.abs().clamp_min(1e-300)).max())
+                    return "x / scalar (%s, value %r): core %d is not the correctly rounded quotient (relative deviation %.3g)" % (kname, q64, k, err)
+            if not changed and float(sum(c.abs().sum().real for c in x.cores)) > 0 and q64 != 1.0:
+                return "x / scalar returned x unchanged"
+            return None
+        cases.append(Case(None, impl, oracle, "sdiv-inexact/%s/%s" % (kname, tag), True, desc="x / %r (%s) x.N=%s dtype=%s" % (q64, kname, list(x.N), dt)))
+    return cases
